@@ -21,7 +21,7 @@ import ast
 
 from ..engine.model import AnalysisError, src, walk_own
 from ..engine.flow import Flow
-from ..engine.inline import Inliner, norm_text, resolved_in_block
+from ..engine.inline import Inliner, norm_text, resolved_in_block, cmp_parts
 from ..engine.typestate import FactDomain, EventDomain, names_in
 
 MOD = 'basic_robotics.path_planning.pathplanner'
@@ -216,10 +216,17 @@ class GrowthDomain(FactDomain):
                     why = 'no distance variable with live range facts'
                     for d in dvars:
                         defs_ok = all({g.atext(a) for a in v.args} == {g.new + '.getPosition()', X.replace(' ', '') + '.getPosition()'} for v in g.assigns[d])
-                        le_max = any(fct[0] is False and fct[1].replace(' ', '').startswith(d + '>') for fct in facts) or \
-                            any(fct[0] is True and fct[1].replace(' ', '').startswith(d + '<=') for fct in facts)
-                        ge_min = any(fct[0] is False and fct[1].replace(' ', '').startswith(d + '<') and not fct[1].replace(' ', '').startswith(d + '<=') for fct in facts) or \
-                            any(fct[0] is True and fct[1].replace(' ', '').startswith(d + '>=') for fct in facts)
+                        NEG = {'<': '>=', '<=': '>', '>': '<=', '>=': '<'}
+                        eff = []
+                        for fct in facts:
+                            try:
+                                cp = cmp_parts(ast.parse(fct[1], mode='eval').body, left=d)
+                            except SyntaxError:
+                                cp = None
+                            if cp is not None and cp[1] in NEG:
+                                eff.append(cp[1] if fct[0] else NEG[cp[1]])
+                        le_max = any(o in ('<', '<=') for o in eff)
+                        ge_min = any(o in ('>', '>=') for o in eff)
                         fresh = d not in stale
                         if defs_ok and le_max and ge_min and fresh:
                             ok = True
